@@ -108,7 +108,11 @@ fn build_symbol(s: &Session, sym: usize, share_id: u32, current_share: u32, k: u
             };
             (proto::other_data_pdu(p, sid, t, &[0u8; 12]), Wrap::Sdi, 0)
         }
-        "deactivate-all" => (proto::deactivate_all_with(p, sid, desc), Wrap::Sdi, 0),
+        "deactivate-all" => {
+            // the share id a deactivate-all carries has no bearing on its effect (with the Windows-like encoding: the current one)
+            let id = if variant == 0 { sid } else { *vr.pick(&[sid, sid, 0, sid.wrapping_add(1), 0xffff_ffff, 0x0002_0001]) };
+            (proto::deactivate_all_with(p, id, desc), Wrap::Sdi, 0)
+        }
         "multi-pdu" => {
             // several share-control PDUs in one payload, a deactivate-all among them: whatever stands before or after it
             // (PDUs the client decodes, PDUs it has no decoder for) the deactivation takes effect
